@@ -121,7 +121,7 @@ class PolyhedralTerm(Term):
             A term with `source_var` replaced by `target_var`.
         """
         new_term = self.copy()
-        if source_var in self.vars:
+        if source_var in self.vars and source_var != target_var:
             if target_var not in self.vars:
                 new_term.variables[target_var] = 0
             new_term.variables[target_var] += new_term.variables[source_var]
